@@ -84,6 +84,7 @@ func suiteResource(r *Rng, n int, thorough bool, o *Out) {
 		obs := func() string { return sxResView(soft) + " " + sxResView(wr) }
 		o.emit(lst("res", "new", sxType(typ)), obs(), verdict())
 		fields := typ.Fields()
+		lastKey := ""
 		for h := r.IntN(8); h > 0 && len(fields) > 0; h-- {
 			var k string
 			var v any
@@ -94,6 +95,11 @@ func suiteResource(r *Rng, n int, thorough bool, o *Out) {
 				o.stat("set.id")
 			} else {
 				k = fields[r.IntN(len(fields))]
+				if lastKey != "" && r.chance(1, 3) {
+					k = lastKey // the same field again: what is read is the last value written
+					o.stat("set.same-field-again")
+				}
+				lastKey = k
 				if a, ok := typ.Attrs[k]; ok {
 					v = genVal(r, a.Type, a.Nullable)
 					if a.Nullable && r.chance(1, 5) {
